@@ -178,11 +178,12 @@ class Injector:
     property's quarantine remove (gap label, class) pairs by construction.
     """
 
-    def __init__(self, classes, blocked=None, allow_string_interp=True, weights=None, allow_attrpath=True):
+    def __init__(self, classes, blocked=None, allow_string_interp=True, weights=None, allow_attrpath=True, one_comment_per_construct=False):
         self.classes = list(classes)
         self.blocked = blocked or (lambda label, cls: False)
         self.allow_string_interp = allow_string_interp
         self.allow_attrpath = allow_attrpath
+        self.one_comment_per_construct = one_comment_per_construct
         self.weights = weights
         self.excluded = 0
 
@@ -224,6 +225,7 @@ class Injector:
                 picked.add(g.index)
                 chosen.append(g)
         perts = []
+        taken = []
         n = 0
         src = tree.src
         for g in sorted(chosen, key=lambda g: g.index):
@@ -240,6 +242,12 @@ class Injector:
                 break
             if cls is None:
                 continue
+            if self.one_comment_per_construct:
+                # finding F24: a comment interacts with other trivia inside the same construct instance / adjacent gaps
+                near = [p for p, p_lca in taken if p_lca == g.lca_id or abs(p.gap_index - g.index) == 1]
+                if near and (FAMILY[cls] != "ws" or any(FAMILY[p.cls] != "ws" for p in near)):
+                    self.excluded += 1
+                    continue
             tag = f"k{n}"
             txt, nc = make_trivia(r, cls, tag, _indent_at(src, g.start))
             if g.start == 0 and nc:
@@ -248,6 +256,7 @@ class Injector:
                 txt = txt.lstrip(" \n\t")
             # a line comment must not swallow the next token: make_trivia always ends it with \n
             perts.append(Perturbation(g.index, g.label, cls, txt, nc))
+            taken.append((perts[-1], g.lca_id))
             n += nc if nc else 0
         return gaps, perts
 
